@@ -279,7 +279,7 @@ def jsonable(o):
 
 
 def write_replay(pid: str, sig: str, fail: dict) -> Path:
-    d = VERIF / "replays" / "found"
+    d = Path(os.environ.get("VPBT_FOUND_DIR", VERIF / "replays" / "found"))
     d.mkdir(parents=True, exist_ok=True)
     p = d / f"{pid}-{h64(sig):016x}.json"
     obj = dict(property=pid, sig=sig, msg=fail["msg"], input=jsonable(fail["replay"]))
@@ -332,7 +332,7 @@ def _replay_one(mod, pid: str, path: Path) -> int:
 def _run_check(mod, modname, pid, tier, seed, nproc, t0, write_evidence) -> int:
     findings = load_findings(pid)
     known_sigs = {f.sig: f for f in findings}
-    for stale in (VERIF / "replays" / "found").glob(f"{pid}-*.json"):
+    for stale in Path(os.environ.get("VPBT_FOUND_DIR", VERIF / "replays" / "found")).glob(f"{pid}-*.json"):
         stale.unlink()
     violations: list[tuple[str, Path, str]] = []
     known_lines: list[str] = []
